@@ -20,13 +20,13 @@ P = {
  "C11": ("exploration", "exhaustive small DAGs x access declarations + big builds (> 2^16 pair look-ups, 1100-deep chain, sparse DAGs of 1030+ / 2050+ functions) + build histories (K builds in between, K around 2^8 and 2^16) + random builder call sequences to 300 functions (functions inserted by add_fn or by the batch form add_fns) + a size ladder over every exact number of functions 33..340 (thorough: 700), on three builds (default, without the async feature, without debug assertions); oracle: validity predicate of the built graph (total, acyclic, functions and user edges kept, extra edges only Data between conflicting functions, every conflicting pair ordered)", "§3 C11"),
  "C12": ("exploration", "exhaustive small DAGs x declarations + random to 300 functions + size ladder (every exact size 33..340), on three builds (default, without async, without debug assertions); oracles: direction rule and non-redundancy, differential against a span-ordered reference construction, == iff effective call sequences equal (metamorphic mutations)", "§3 C12"),
  "C13": ("exploration", "exhaustive DAGs (n <= 4 quick, n <= 5 thorough) + big builds + build histories + random to 300 functions + size ladder (every exact size 33..340), all insertion orders, three builds; oracle: own longest-path DP", "§3 C13"),
- "C14": ("exploration", "exhaustive small DAGs x declarations + random (sequences of walks on one graph value incl. abandoned, interleaved and panicking ones) + size ladder (every exact size 33..340), three builds; oracle: permutation + every built edge respected for all sequential walkers, insertion order for iter_insertion*, failing position for try_fold/try_for_each", "§3 C14"),
+ "C14": ("exploration", "exhaustive small DAGs x declarations + random (sequences of walks on one graph value incl. abandoned, interleaved and panicking ones) + size ladder (every exact size 33..340), three builds; also on clone() and clone_from copies of the built graph; oracle: permutation + every built edge respected for all sequential walkers, insertion order for iter_insertion*, failing position for try_fold/try_for_each", "§3 C14"),
  "C15": ("exploration", "generated histories (1-3 earlier runs: completed, failed, interrupted, future/stream dropped midway, FnRefs and stream values kept alive into later runs, sequential walks) then a last run; long histories (256-319 repetitions, thorough 65600); size ladder (every exact graph size 25..270); oracle: differential, reused graph vs freshly built graph, identical trace and result", "§3 C15"),
  "C16": ("exploration", "model-based: generated builder call sequences (single and batch edge calls, both kinds, repeats, reversed pairs, self edges; to 12 functions, long ones of 300-800 calls, large node sets with hubs) + exhaustive over 3 functions, three builds; oracle: reachability model after every call and edge set after build", "§3 C16"),
  "C17": ("exploration", "exhaustive small DAGs x declarations + iteration-work families (CPU-time budget) + random (node type with a data-carrying enum, 128-bit integers; abandoned and lock-step walks) + size ladder (every exact size 33..340), three builds; oracle: GraphInfo mirrors nodes/edges incl. Data, round trips (== and structural) through JSON text / value tree / reader, YAML and a compact not-human-readable binary serde format of the harness's own, iter / iter_rev topological also on the deserialised value", "§3 C17"),
  "C18": ("exploration", "generated path-explosive families (complete, layered, diamond chains, disjoint parts, forest-by-count, data-edge re-convergence, reader + ladder, rejected back edge; increasing size, stop at first violation; thread-CPU-time budget; a build() that has used 60 s of CPU without returning is reported at once by the build watchdog, DESIGN 2.8b) + random; oracle: RankCalc visit counter (hook) <= n^2+n and data-access queries <= 4n^2+4n", "§3 C18"),
- "C19": ("exploration", "generated caller programs from a grammar (API x function type incl. a borrowing one x future style incl. borrowing and combinator futures x error type x use incl. nested Send async blocks x feature set) decided by the type checker (cargo check), negative controls must be rejected; thorough: whole grammar + execution of the thread-moving programs", "§3 C19"),
- "C20": ("exploration", "generated pairs/triples (rarely 9-12) of simultaneous runs on one &FnGraph with an interleaved schedule (separate tasks incl. a poll of one run inside a poll of another, or one task / one tokio task), long overlaps (K = 2^8, 2^16 other runs during one run), size ladder (every exact graph size 25..270); oracle: non-interference differential (each run replayed alone with its projected actions gives the identical trace and result) + per-run oracles", "§3 C20"),
+ "C19": ("exploration", "generated caller programs from a grammar (API x function type incl. a borrowing one x future style incl. borrowing and combinator futures x error type x use incl. nested Send async blocks and a FnRef kept alive across an await in a Send future x feature set) decided by the type checker (cargo check), negative controls must be rejected; thorough: whole grammar + execution of the thread-moving programs", "§3 C19"),
+ "C20": ("exploration", "generated pairs/triples (rarely 9-12) of simultaneous runs on one &FnGraph with an interleaved schedule (separate tasks incl. a poll of one run inside a poll of another, or one task / one tokio task), long overlaps (K = 2^8, 2^16 other runs during one run; on graphs of 1030+ functions six other runs that must each finish while run A is suspended after its first poll), size ladder (every exact graph size 25..270); oracle: non-interference differential (each run replayed alone with its projected actions gives the identical trace and result) + per-run oracles", "§3 C20"),
 }
 TECH = {
  "C01": "property-based testing (proptest) over graphs x options x schedules with a controlled executor; trace-invariant oracle",
